@@ -348,6 +348,10 @@ def build_family(tier, seed):
                 un.append(dict(a=a, op="squeeze", axis=k - nd))
             if len(ones) >= 2:
                 un.append(dict(a=a, op="squeeze", axis=tuple(ones[:2])))
+                un.append(dict(a=a, op="squeeze", axis=(ones[0], ones[1] - nd)))
+                un.append(dict(a=a, op="squeeze", axis=[ones[1] - nd, ones[0] - nd]))
+            if ones:
+                un.append(dict(a=a, op="squeeze", axis=(ones[-1] - nd,)))
             for pos in list(range(nd + 1)) + [-1]:
                 un.append(dict(a=a, op="expand_dims", axis=pos, c=None, dual=None))
             c1 = fam.UNIVERSE[sym][1]
